@@ -1,8 +1,71 @@
 """Thin wrappers that run the library's writers the way a caller would."""
 import os
+import queue as _queue
+import threading
 import numpy as np
 
 from . import env
+
+
+class _Retire:
+    """Handed to a worker thread the library left behind: whatever it does with it raises, and the
+    thread ends."""
+
+
+_hook_installed = []
+
+
+def _quiet_retirement():
+    if _hook_installed:
+        return
+    prev = threading.excepthook
+
+    def hook(a):
+        t = a.thread
+        if t is not None and getattr(t, "_vp_retired", False):
+            return          # the exception we provoked to end a left-over worker
+        prev(a)
+    threading.excepthook = hook
+    _hook_installed.append(True)
+
+
+def retire_leftover_workers():
+    """Every conversion leaves the library's compressor and writer threads blocked for ever in
+    Queue.get() (daemon threads, never joined).  A shard runs thousands of conversions and this machine
+    allows about 32 000 threads in all, so after the conversion call has returned, and only when the
+    worker's queue is idle (empty, nothing unfinished), the harness hands each such thread a value on which
+    it fails and ends.  Nothing is done to threads of a conversion still running, to queues that are not
+    queue.Queue (the controlled scheduler of C16), or to threads with other targets."""
+    victims = []
+    for t in threading.enumerate():
+        if not t.daemon or t is threading.current_thread() or getattr(t, "_vp_retired", False):
+            continue
+        target = getattr(t, "_target", None)
+        args = getattr(t, "_args", None)
+        if target is None or not args:
+            continue
+        if getattr(target, "__module__", "") != "seismic_zfp.conversion_utils" or target.__name__ not in ("compressor", "writer"):
+            continue
+        q = args[0]
+        if type(q) is not _queue.Queue:
+            continue
+        with q.mutex:
+            idle = not q.queue and q.unfinished_tasks == 0
+        if not idle:
+            continue
+        victims.append((t, q))
+    if not victims:
+        return 0
+    _quiet_retirement()
+    for t, q in victims:
+        t._vp_retired = True
+        try:
+            q.put_nowait(_Retire())
+        except _queue.Full:
+            t._vp_retired = False
+    for t, q in victims:
+        t.join(timeout=1.0)
+    return len(victims)
 
 
 def numpy_convert(data, out, bpv, blockshape, ilines=None, xlines=None, samples=None, trace_headers=None, earlier=()):
@@ -12,11 +75,14 @@ def numpy_convert(data, out, bpv, blockshape, ilines=None, xlines=None, samples=
     kw = {}
     if trace_headers is not None:
         kw["trace_headers"] = trace_headers
-    with env.quiet():
-        with NumpyConverter(data, ilines=ilines, xlines=xlines, samples=samples, **kw) as c:
-            for o0, b0, s0 in earlier:
-                c.run(o0, bits_per_voxel=b0, blockshape=s0)
-            c.run(out, bits_per_voxel=bpv, blockshape=blockshape)
+    try:
+        with env.quiet():
+            with NumpyConverter(data, ilines=ilines, xlines=xlines, samples=samples, **kw) as c:
+                for o0, b0, s0 in earlier:
+                    c.run(o0, bits_per_voxel=b0, blockshape=s0)
+                c.run(out, bits_per_voxel=bpv, blockshape=blockshape)
+    finally:
+        retire_leftover_workers()
 
 
 def segy_convert(path, out, bpv=4, blockshape=None, reduce_iops=False, header_detection="heuristic", queue=None,
@@ -26,29 +92,35 @@ def segy_convert(path, out, bpv=4, blockshape=None, reduce_iops=False, header_de
     kw = {}
     if window is not None:
         kw = dict(min_il=window[0], max_il=window[1], min_xl=window[2], max_xl=window[3])
-    with env.quiet():
-        with C(path, **kw) as c:
-            if queue is not None:
-                # queue capacity = min(16, (mem_limit // 2) // inline_set_bytes): drive it through the
-                # public attribute
-                orig = c.check_memory
+    try:
+        with env.quiet():
+            with C(path, **kw) as c:
+                if queue is not None:
+                    # queue capacity = min(16, (mem_limit // 2) // inline_set_bytes): drive it through the
+                    # public attribute
+                    orig = c.check_memory
 
-                def check_memory(inline_set_bytes, _q=queue, _c=c, _orig=orig):
-                    _c.mem_limit = 2 * inline_set_bytes * _q
-                    return _orig(inline_set_bytes=inline_set_bytes)
-                c.check_memory = check_memory
-            for o0, b0, s0 in earlier:
-                c.run(o0, bits_per_voxel=b0, blockshape=s0, reduce_iops=reduce_iops, header_detection=header_detection)
-            c.run(out, bits_per_voxel=bpv, blockshape=blockshape, reduce_iops=reduce_iops,
-                  header_detection=header_detection)
+                    def check_memory(inline_set_bytes, _q=queue, _c=c, _orig=orig):
+                        _c.mem_limit = 2 * inline_set_bytes * _q
+                        return _orig(inline_set_bytes=inline_set_bytes)
+                    c.check_memory = check_memory
+                for o0, b0, s0 in earlier:
+                    c.run(o0, bits_per_voxel=b0, blockshape=s0, reduce_iops=reduce_iops, header_detection=header_detection)
+                c.run(out, bits_per_voxel=bpv, blockshape=blockshape, reduce_iops=reduce_iops,
+                      header_detection=header_detection)
+    finally:
+        retire_leftover_workers()
 
 
 def cli_invoke(args):
     """Run the click CLI in-process.  Returns (exit_code, exception)."""
     from click.testing import CliRunner
     from seismic_zfp.cli import cli
-    with env.quiet():
-        r = CliRunner().invoke(cli, [str(a) for a in args])
+    try:
+        with env.quiet():
+            r = CliRunner().invoke(cli, [str(a) for a in args])
+    finally:
+        retire_leftover_workers()
     return r.exit_code, r.exception
 
 
